@@ -40,7 +40,7 @@ theorem dropZ_pad (m : List Nat) :
 
 /-! ## digitsNat -/
 
-theorem digitsNat_zero (base : Nat) (acc : List Nat) : digitsNat base 0 acc = acc := by
+theorem digitsNat_zero_cv (base : Nat) (acc : List Nat) : digitsNat base 0 acc = acc := by
   rw [digitsNat]; simp
 
 theorem digitsNat_pos (base n : Nat) (acc : List Nat) (hn : n ≠ 0) (hb : 2 ≤ base) :
@@ -83,7 +83,7 @@ theorem digitsNat_valB (base : Nat) (hb : 2 ≤ base) (m : List Nat) (hm : ∀ d
   | nil =>
     simp only [valB, List.foldl_nil]
     split
-    · rename_i h; subst h; rw [digitsNat_zero]; rfl
+    · rename_i h; subst h; rw [digitsNat_zero_cv]; rfl
     · simp
   | cons d m ih =>
     have hd := hm d (by simp)
@@ -95,7 +95,7 @@ theorem digitsNat_valB (base : Nat) (hb : 2 ≤ base) (m : List Nat) (hm : ∀ d
       by_cases hd0 : d = 0
       · subst hd0; simp [dropZ]
       · have : 0 * base + d ≠ 0 := by omega
-        rw [if_neg this, digitsNat_step base 0 d hb hd (Or.inr hd0), digitsNat_zero,
+        rw [if_neg this, digitsNat_step base 0 d hb hd (Or.inr hd0), digitsNat_zero_cv,
           dropZ_cons_pos d m hd0]
         simp
     · have : n0 * base + d ≠ 0 := by
@@ -109,7 +109,7 @@ theorem valB_digitsNat (base : Nat) (hb : 2 ≤ base) (n : Nat) (acc : List Nat)
   induction n using Nat.strongRecOn generalizing acc with
   | _ n ih =>
     by_cases hn : n = 0
-    · subst hn; rw [digitsNat_zero]
+    · subst hn; rw [digitsNat_zero_cv]
     · have hlt : n / base < n := Nat.div_lt_self (by omega) hb
       rw [digitsNat_pos base n acc hn hb, ih _ hlt]
       simp only [valB, List.foldl_cons]
@@ -120,7 +120,7 @@ theorem digitsNat_lt (base : Nat) (hb : 2 ≤ base) (n : Nat) (acc : List Nat)
   induction n using Nat.strongRecOn generalizing acc with
   | _ n ih =>
     by_cases hn : n = 0
-    · subst hn; rw [digitsNat_zero]; exact hacc
+    · subst hn; rw [digitsNat_zero_cv]; exact hacc
     · have hlt : n / base < n := Nat.div_lt_self (by omega) hb
       rw [digitsNat_pos base n acc hn hb]
       apply ih _ hlt
@@ -130,16 +130,16 @@ theorem digitsNat_lt (base : Nat) (hb : 2 ≤ base) (n : Nat) (acc : List Nat)
       · exact Nat.mod_lt _ (by omega)
       · exact hacc d hd
 
-theorem digitsNat_length_le (base : Nat) (hb : 2 ≤ base) (L n : Nat) (h : n < base ^ L) :
+theorem digitsNat_length_le_cv (base : Nat) (hb : 2 ≤ base) (L n : Nat) (h : n < base ^ L) :
     (digitsNat base n []).length ≤ L := by
   induction L generalizing n with
   | zero =>
     have : n = 0 := by simpa using h
     subst this
-    rw [digitsNat_zero]; simp
+    rw [digitsNat_zero_cv]; simp
   | succ L ih =>
     by_cases hn : n = 0
-    · subst hn; rw [digitsNat_zero]; simp
+    · subst hn; rw [digitsNat_zero_cv]; simp
     · rw [digitsNat_pos base n [] hn hb, digitsNat_acc]
       have : n / base < base ^ L := by
         apply Nat.div_lt_of_lt_mul
@@ -167,7 +167,7 @@ theorem digitsStrLoop_spec (base : Nat) (hb : 2 ≤ base) (hb' : base < 10) (f :
     have h0 : s.toNat = 0 := by simpa using h
     have := hs.eq_zero_of_toNat h0
     subst this
-    rw [h0, digitsNat_zero]
+    rw [h0, digitsNat_zero_cv]
     simp [digitsStrLoop]
   | succ f ih =>
     rw [digitsStrLoop]
@@ -175,7 +175,7 @@ theorem digitsStrLoop_spec (base : Nat) (hb : 2 ≤ base) (hb' : base < 10) (f :
     · subst hz
       rw [if_pos rfl]
       have : Dec.toNat [0] = 0 := rfl
-      rw [this, digitsNat_zero]
+      rw [this, digitsNat_zero_cv]
     · rw [if_neg hz]
       simp only
       have hne : s.toNat ≠ 0 := fun h0 => hz (hs.eq_zero_of_toNat h0)
@@ -262,7 +262,7 @@ theorem numberToBitInt_spec (n L : Nat) (h : n < 2 ^ L) :
     (numberToBitInt n L).length = L ∧ (∀ b ∈ numberToBitInt n L, b < 2) ∧
     bitToNumberInt (numberToBitInt n L) = n ∧
     (∃ z, numberToBitInt n L = List.replicate z 0 ++ digitsNat 2 n []) := by
-  have hl := digitsNat_length_le 2 (by omega) L n h
+  have hl := digitsNat_length_le_cv 2 (by omega) L n h
   have he : numberToBitInt n L = List.replicate (L - (digitsNat 2 n []).length) 0 ++
       digitsNat 2 n [] := fitBits_of_le _ _ hl
   refine ⟨fitBits_length _ _, ?_, ?_, ⟨_, he⟩⟩
@@ -277,7 +277,7 @@ theorem numberToBitInt_spec (n L : Nat) (h : n < 2 ^ L) :
 
 /-! ## nucleotides -/
 
-theorem nucIdx_lt (c : Char) (j : Nat) (h : nucIdx c = some j) : j < 4 := by
+theorem nucIdx_lt_cv (c : Char) (j : Nat) (h : nucIdx c = some j) : j < 4 := by
   unfold nucIdx at h
   split at h
   · simp at h; omega
@@ -289,7 +289,7 @@ theorem nucIdx_lt (c : Char) (j : Nat) (h : nucIdx c = some j) : j < 4 := by
   · simp at h; omega
   · simp at h
 
-theorem nucChar_nucIdx (c : Char) (j : Nat) (h : nucIdx c = some j) : nucChar j = c := by
+theorem nucChar_nucIdx_cv (c : Char) (j : Nat) (h : nucIdx c = some j) : nucChar j = c := by
   unfold nucIdx at h
   split at h
   · simp at h; subst h; simp [nucChar, *]
@@ -301,11 +301,11 @@ theorem nucChar_nucIdx (c : Char) (j : Nat) (h : nucIdx c = some j) : nucChar j 
   · simp at h; subst h; simp [nucChar, *]
   · simp at h
 
-theorem nucIdx_nucChar (j : Nat) (h : j < 4) : nucIdx (nucChar j) = some j := by
+theorem nucIdx_nucChar_cv (j : Nat) (h : j < 4) : nucIdx (nucChar j) = some j := by
   have : j = 0 ∨ j = 1 ∨ j = 2 ∨ j = 3 := by omega
   rcases this with rfl | rfl | rfl | rfl <;> decide
 
-theorem nucIdx_nucChar_isSome (j : Nat) : (nucIdx (nucChar j)).isSome = true := by
+theorem nucIdx_nucChar_isSome_cv (j : Nat) : (nucIdx (nucChar j)).isSome = true := by
   unfold nucChar
   split
   · decide
@@ -324,11 +324,11 @@ theorem nucVals_lt (d : List Char) : ∀ v ∈ nucVals d, v < 4 := by
   obtain ⟨c, _, rfl⟩ := hv
   cases h : nucIdx c with
   | none => simp
-  | some j => simpa using nucIdx_lt c j h
+  | some j => simpa using nucIdx_lt_cv c j h
 
 theorem nucVals_length (d : List Char) : (nucVals d).length = d.length := by simp [nucVals]
 
-theorem nucValues_ok (d : List Char) (hd : ∀ c ∈ d, (nucIdx c).isSome = true) :
+theorem nucValues_ok_cv (d : List Char) (hd : ∀ c ∈ d, (nucIdx c).isSome = true) :
     nucValues d = .ok (nucVals d) := by
   induction d with
   | nil => rfl
@@ -368,7 +368,7 @@ theorem map_nucChar_nucVals (d : List Char) (hd : ∀ c ∈ d, (nucIdx c).isSome
     | none => simp [h] at hc
     | some j =>
       simp only [nucVals, List.map_cons, h, Option.getD_some] at this ⊢
-      rw [nucChar_nucIdx c j h]
+      rw [nucChar_nucIdx_cv c j h]
       simp only [List.map_map] at this ⊢
       rw [this]
 
@@ -378,7 +378,7 @@ theorem nucVals_map_nucChar (ds : List Nat) (h : ∀ v ∈ ds, v < 4) :
   | nil => rfl
   | cons v ds ih =>
     have := ih (fun q hq => h q (by simp [hq]))
-    simp only [nucVals, List.map_cons, nucIdx_nucChar v (h v (by simp)), Option.getD_some] at this ⊢
+    simp only [nucVals, List.map_cons, nucIdx_nucChar_cv v (h v (by simp)), Option.getD_some] at this ⊢
     rw [this]
 
 theorem nucVals_replicate_A (z : Nat) : nucVals (List.replicate z 'A') = List.replicate z 0 := by
@@ -400,7 +400,7 @@ theorem padDna_isDna (one : List Nat) (L : Nat) :
   simp only [padDna, List.mem_append, List.mem_replicate, List.mem_map] at hc
   rcases hc with ⟨_, rfl⟩ | ⟨j, _, rfl⟩
   · decide
-  · exact nucIdx_nucChar_isSome j
+  · exact nucIdx_nucChar_isSome_cv j
 
 theorem padDna_dropZ (vs : List Nat) : padDna (dropZ vs) vs.length = vs.map nucChar := by
   have h : List.replicate (vs.length - (dropZ vs).length) 'A' =
@@ -418,13 +418,13 @@ theorem dnaToNumberStr_ok (d : List Char) (hd : ∀ c ∈ d, (nucIdx c).isSome =
     dnaToNumberStr d =
       .ok ((nucVals d).foldl (fun n v => calculusAddition (calculusMultiplication n 4) v) [0]) := by
   unfold dnaToNumberStr
-  rw [nucValues_ok d hd]
+  rw [nucValues_ok_cv d hd]
   rfl
 
 theorem dnaToNumberInt_ok (d : List Char) (hd : ∀ c ∈ d, (nucIdx c).isSome = true) :
     dnaToNumberInt d = .ok (valB 4 (nucVals d) 0) := by
   unfold dnaToNumberInt
-  rw [nucValues_ok d hd]
+  rw [nucValues_ok_cv d hd]
   rfl
 
 theorem dnaStr_spec (d : List Char) :
@@ -450,7 +450,7 @@ theorem numberToDnaInt_spec (n L : Nat) (h : n < 4 ^ L) :
     (numberToDnaInt n L).length = L ∧ (∀ c ∈ numberToDnaInt n L, (nucIdx c).isSome = true) ∧
     dnaToNumberInt (numberToDnaInt n L) = .ok n ∧
     (∃ z, numberToDnaInt n L = List.replicate z 'A' ++ (digitsNat 4 n []).map nucChar) := by
-  have hl := digitsNat_length_le 4 (by omega) L n h
+  have hl := digitsNat_length_le_cv 4 (by omega) L n h
   have hlt := digitsNat_lt 4 (by omega) n [] (by simp)
   refine ⟨padDna_length _ _ hl, padDna_isDna _ _, ?_, ⟨_, rfl⟩⟩
   unfold numberToDnaInt
